@@ -99,6 +99,8 @@ PROPS = {
     "C04": dict(
         level="proof",
         model_timeout=3600,
+        extra_lean_targets=["LdpcV.Props.C04Real"],
+        extra_prop_files=["LdpcV/Props/C04Real.lean"],
         trusted_base=[KERNEL, CORR,
                       "8-bit rules: exact integer model lean/LdpcV/Model/ArithI8.lean (i8/i16 as Int with explicit overflow checks); the correction table is a "
                       "literal in the model and is compared entry by entry with the table read from the Debug text of every Rust arithmetic object",
@@ -106,10 +108,14 @@ PROPS = {
         rule=("8-bit: all 16 types: degree 2 EXHAUSTIVE (255^2 vectors each), degree 3 sampled 1e5 (2e6 thorough), degrees 4-30 random incl. boundary vectors "
               "(all +-127, ties, zeros, hard-limit thresholds 99/100/101), degrees 0/1 (documented panic); exact comparison of the emitted (dest, value) sequence "
               "with the model and evaluation of the C04 predicate (one message per neighbour, sign rule, magnitude <= smallest other, hard-limit promotion, range) on "
-              "the implementation output; non-trivial = degree >= 2; distinct = distinct canonical input"),
+              "the implementation output; float: the 8 float types on 24000 (400000 thorough) working-range vectors (|x| <= 30 f64 / 14 f32, plus 0, 1e-300, 1e-30), "
+              "degrees 2-30: every comparison in the tanh domain (tolerance 1e-11 f64, 2e-5 f32) against the Float instance of the generic model and against the "
+              "box-plus product: phi / tanh / A-Min*-to-argmin exact, A-Min* others = box-plus of all inputs, min*-approx between exact-(d-2)ln2 and exact, sign "
+              "rule, <= smallest other; non-trivial = degree >= 2; distinct = distinct canonical input"),
         assumptions=COMMON_ASSUME,
-        partial=["float arithmetics: tanh-domain comparison of the 8 float types and the real-semantics theorems are in preparation (see DESIGN.md C04)",
-                 "table-vs-real clause (|table[t] - 8 ln(1+e^(-t/8))| <= 1/2) not yet proved"],
+        partial=["IEEE rounding of the float rules is not bounded by any theorem (real-semantics theorems + tanh-domain comparison only)",
+                 "table-vs-real clause (|table[t] - 8 ln(1+e^(-t/8))| <= 1/2, and the accumulated tracking bound of the 8-bit rules) is not proved; the table is "
+                 "compared entry by entry with the Rust table, whose entries Rust computes from that very formula"],
     ),
     "C05": dict(
         level="proof",
@@ -122,7 +128,8 @@ PROPS = {
               "layered primitive on random states inside the envelope and on envelope-boundary states; exact comparison with the model + the saturating-sum and "
               "layered-equals-flooding predicates evaluated on the implementation output; non-trivial = degree >= 1 (var) / >= 2 (layer); distinct = distinct input"),
         assumptions=COMMON_ASSUME,
-        partial=["float types: sum-then-subtract rule is not modelled (bit-comparison planned)",
+        partial=["float layered primitives (update_check_messages_and_vars of the 8 float types) are not compared separately (they are exercised through the "
+                 "HL decoders in C01/C10/C18 only); the float variable rule is compared bit for bit (Float / Float32 instances) but has no theorem beyond its definition",
                  "envelope invariant |var| <= 127*(deg+1) over whole layered iterations (end-to-end no-overflow for the 4 HL 8-bit names) not yet proved"],
     ),
     "C08": dict(
@@ -227,5 +234,18 @@ PROPS = {
               "and encode to codewords, girth_with_max(6) of rate 1/2 k=1024 and of C2 is reported (harness_extra); non-trivial = every code; distinct = 7 (10)"),
         assumptions=COMMON_ASSUME,
         partial=["uniqueness of the GF(2) rank (basis size) is not proved; the k = 16384 codes are only in the thorough tier (9 min native evaluation)"],
+    ),
+    "C14": dict(
+        level="proof",
+        trusted_base=[KERNEL + " (Mathlib real analysis: Real.exp/log/tanh/sqrt/cos/sin)", CORR,
+                      "the theorems are about the REAL-NUMBER semantics of the formula text of lean/LdpcV/Model/Modulation.lean (the same generic definitions are "
+                      "instantiated at Float for the comparison with Rust); IEEE rounding of exp/ln_1p and of the arithmetic is not bounded by any theorem"],
+        rule=("modulators: all 8 bit triples, the empty string and 200 (4000 thorough) random bit strings of length 1-40 incl. lengths not divisible by 3 (documented "
+              "panic), symbols compared bit for bit; demodulators: BPSK and 8PSK on a grid (|re|,|im| <= 6, step 0.5) x 9 noise levels in [0.05, 10] and 6000 "
+              "(200000) random points with log-uniform sigma: Rust vs the Float instance of the generic model and vs a direct stabilised log-sum-exp evaluation of "
+              "the posterior log-ratio the property states (1e-9 relative + 1e-12 / 1e-9 absolute); noiseless hard decisions of modulated random strings; "
+              "non-trivial = every demodulator case, modulator strings of >= 3 bits; distinct = distinct canonical input"),
+        assumptions=COMMON_ASSUME,
+        partial=["IEEE rounding (float vs real) is covered only by the numeric comparison, not by a theorem"],
     ),
 }
